@@ -236,6 +236,52 @@ theorem selSorted_selectNth (gt : α → α → Bool) (hgt : StrictWeak gt) (K :
     · intro b hb
       exact hs'.2.1.1 b hb
 
+/-- the adversarial `select_nth` (best K reversed, pivot, rest reversed) satisfies the contract too -/
+theorem selReversed_selectNth (gt : α → α → Bool) (hgt : StrictWeak gt) (K : Nat) :
+    SelectNth gt K (selReversed gt K) where
+  perm buf := by
+    unfold selReversed
+    have h1 : ((isort (le gt) buf).drop K).take 1 ++ (((isort (le gt) buf).drop K).drop 1).reverse
+        ~ (isort (le gt) buf).drop K := by
+      conv => rhs; rw [← take_append_drop 1 ((isort (le gt) buf).drop K)]
+      exact Perm.append_left _ (reverse_perm _)
+    have h2 : (isort (le gt) buf).take K ++ (isort (le gt) buf).drop K ~ buf := by
+      rw [take_append_drop]; exact isort_perm buf
+    rw [append_assoc]
+    exact ((Perm.append (reverse_perm _) h1)).trans h2
+  part buf hK := by
+    obtain ⟨front, m, back, hs, hfl, hf, hb⟩ := (selSorted_selectNth gt hgt K).part buf hK
+    unfold selSorted at hs
+    unfold selReversed
+    rw [hs]
+    have hd : (front ++ m :: back).drop K = m :: back := by rw [← hfl]; simp
+    have ht : (front ++ m :: back).take K = front := by rw [← hfl]; simp
+    simp only [hd, ht]
+    refine ⟨front.reverse, m, back.reverse, by simp, by simpa using hfl, ?_, ?_⟩
+    · intro a ha; exact hf a (mem_reverse.mp ha)
+    · intro b hb'; exact hb b (mem_reverse.mp hb')
+
+/-- three segments with massive key ties; N = O + K = 4 -/
+def tieSegs : List (List (Entry Nat)) :=
+  [[⟨0, 0⟩, ⟨1, 1⟩, ⟨1, 2⟩, ⟨2, 3⟩, ⟨2, 4⟩], [⟨1, 100⟩, ⟨2, 101⟩],
+   [⟨2, 200⟩, ⟨2, 201⟩, ⟨2, 202⟩, ⟨1, 203⟩, ⟨2, 204⟩]]
+
+/-- `C06_merge_offset` / `C06_search` WITHOUT the ascending-fruit hypothesis is FALSE for the
+mechanism as coded: with a `select_nth` that satisfies its contract (`selReversed_selectNth`) the
+per-segment fruits (`into_vec`, unsorted) are pushed into the merge `TopNComputer` out of address
+order, its strict threshold drops document `200` although it ties with, and precedes, the
+returned document `201`. (Reproduced on the real `Searcher::search`: known finding
+`C06:merge-ties-unsorted-fruits`.) -/
+theorem C06_merge_unsorted_counterexample :
+    search gtNat (selReversed gtNat 4) 3 1 tieSegs = [⟨2, 4⟩, ⟨2, 101⟩, ⟨2, 201⟩] ∧
+    topK (le gtNat) 3 1 tieSegs.flatten = [⟨2, 4⟩, ⟨2, 101⟩, ⟨2, 200⟩] ∧
+    (∀ d, d ∈ tieSegs → AddrAsc d) ∧ AddrNodup tieSegs.flatten := by
+  refine ⟨by decide, by decide, ?_, ?_⟩
+  · intro d hd
+    simp only [tieSegs, mem_cons, not_mem_nil, or_false] at hd
+    rcases hd with rfl | rfl | rfl <;> (unfold AddrAsc; decide)
+  · unfold AddrNodup tieSegs; decide
+
 def exDocs : List (Entry Nat) := [⟨5, 0⟩, ⟨7, 1⟩, ⟨5, 2⟩, ⟨9, 3⟩, ⟨7, 4⟩, ⟨7, 5⟩, ⟨1, 6⟩]
 
 example : AddrAsc exDocs := by unfold AddrAsc exDocs; decide
